@@ -1,5 +1,6 @@
 import Harper.Lemmas.PatternRules
 import Harper.Props.C01Leaves
+import Harper.Props.C01Pattern
 /-!
 # C01 (shipped `PatternLinter` rules) — none of the 28 rules panics
 
@@ -427,5 +428,397 @@ example : specUseGenitive.run env0 ['a', ' '] [⟨⟨0, 1⟩, .word⟩, ⟨⟨1,
 example : specHereby.run env0 ['h', 'e', 'r', 'e', ' ', 'b', 'y', ' ', 'g', 'o']
     [⟨⟨0, 4⟩, .word⟩, ⟨⟨4, 5⟩, .space 1⟩, ⟨⟨5, 7⟩, .word⟩, ⟨⟨7, 8⟩, .space 1⟩, ⟨⟨8, 10⟩, .word⟩] =
     .ok [⟨⟨0, 7⟩, [.replaceWith ['h', 'e', 'r', 'e', 'b', 'y']], 28, 0⟩] := by decide
+
+end Harper.C01
+
+namespace Harper.C01
+open Harper Harper.Chunks Harper.Rules Harper.Leaves Harper.PatternRules
+
+/-! ## the Tok-level chunk iterators (`Model/Chunks.lean`): the facts `iterSplit_*` state of the kind-code model
+
+`Chunks.split term` is `iter_chunks` / `iter_sentences` / `iter_paragraphs` (`token_string_ext.rs`) as the rule models
+(`Rules.overPieces`) run them. `split_flatten` is in `Props/C01Leaves.lean`. -/
+
+/-- **every piece of a non-empty token vector is non-empty** (`iter_chunks` &c. never hand an empty slice to a rule) … -/
+theorem split_nonempty (term : Kind → Bool) (toks : List Tok) (hne : toks ≠ []) :
+    ∀ c ∈ Chunks.split term toks, c ≠ [] := by
+  unfold Chunks.split
+  rw [if_neg (by simpa using hne)]
+  exact splitGo_ne term toks []
+
+/-- … and the empty vector is the one input with an empty piece: `Some(self)` of the "no terminator" arm -/
+example : Chunks.split isChunkTerminator [] = [[]] := by decide
+
+/-- non-vacuity of `split_nonempty`: `a, b.` -/
+example : Chunks.iterChunks [⟨⟨0, 1⟩, .word⟩, ⟨⟨1, 2⟩, .punct .Comma⟩, ⟨⟨2, 3⟩, .space 1⟩, ⟨⟨3, 4⟩, .word⟩, ⟨⟨4, 5⟩, .punct .Period⟩] =
+    [[⟨⟨0, 1⟩, .word⟩, ⟨⟨1, 2⟩, .punct .Comma⟩], [⟨⟨2, 3⟩, .space 1⟩, ⟨⟨3, 4⟩, .word⟩, ⟨⟨4, 5⟩, .punct .Period⟩]] := by decide
+
+/-- **how many pieces**: one per terminator token, and one more for the tokens after the last terminator (also when
+there is no token at all: the one empty piece) -/
+theorem split_count (term : Kind → Bool) (toks : List Tok) :
+    (Chunks.split term toks).length =
+      toks.countP (fun t => term t.kind) + (if endsInTerm term toks then 0 else 1) := by
+  unfold Chunks.split endsInTerm
+  cases toks with
+  | nil => simp
+  | cons t ts =>
+    rw [if_neg (by simp), splitGo_length]
+    cases hl : (t :: ts).getLast? with
+    | none => simp at hl
+    | some l => rfl
+
+/-- hence at most as many pieces as tokens (for the empty vector: the one empty piece) -/
+theorem split_count_le (term : Kind → Bool) (toks : List Tok) :
+    (Chunks.split term toks).length ≤ max 1 toks.length := by
+  rw [split_count]
+  unfold endsInTerm
+  have h1 := List.countP_le_length (p := fun t => term t.kind) (l := toks)
+  cases hl : toks.getLast? with
+  | none =>
+    have : toks = [] := by simpa using hl
+    subst this; simp
+  | some l =>
+    simp only []
+    by_cases hterm : term l.kind = true
+    · rw [if_pos hterm]; omega
+    · rw [if_neg hterm]
+      -- the last token is not counted
+      have hmem := List.mem_of_getLast? hl
+      have hlt : toks.countP (fun t => term t.kind) < toks.length := by
+        rcases Nat.lt_or_ge (toks.countP (fun t => term t.kind)) toks.length with h | h
+        · exact h
+        · have heq : toks.countP (fun t => term t.kind) = toks.length := by omega
+          have := List.countP_eq_length.mp heq l hmem
+          exact absurd this hterm
+      omega
+
+/-- **a terminator is always the last token of its piece, and every piece but the last one ends in a terminator** -/
+theorem split_terminators (term : Kind → Bool) (toks : List Tok) :
+    (∀ c ∈ Chunks.split term toks, c.dropLast.any (fun t => term t.kind) = false) ∧
+    (∀ pre c post, Chunks.split term toks = pre ++ c :: post → post ≠ [] →
+      ∃ t, c.getLast? = some t ∧ term t.kind = true) := by
+  unfold Chunks.split
+  split
+  · refine ⟨by simp, ?_⟩
+    intro pre c post h hpost
+    cases pre with
+    | nil => simp at h; exact absurd h.2 hpost
+    | cons p pre => simp at h
+  · exact ⟨splitGo_inner term toks [] rfl, splitGo_ends term toks []⟩
+
+/-- `iter_chunks` / `iter_sentences` / `iter_paragraphs` of the rule models, all facts together -/
+theorem iterChunks_tok_pieces (toks : List Tok) :
+    (toks ≠ [] → ∀ c ∈ Chunks.iterChunks toks, c ≠ []) ∧
+    (Chunks.iterChunks toks).length =
+      toks.countP (fun t => isChunkTerminator t.kind) + (if endsInTerm isChunkTerminator toks then 0 else 1) ∧
+    (Chunks.iterChunks toks).length ≤ max 1 toks.length ∧
+    (∀ c ∈ Chunks.iterChunks toks, c.dropLast.any (fun t => isChunkTerminator t.kind) = false) ∧
+    (∀ pre c post, Chunks.iterChunks toks = pre ++ c :: post → post ≠ [] →
+      ∃ t, c.getLast? = some t ∧ isChunkTerminator t.kind = true) :=
+  ⟨split_nonempty _ toks, split_count _ toks, split_count_le _ toks, (split_terminators _ toks).1, (split_terminators _ toks).2⟩
+
+theorem iterSentences_tok_pieces (toks : List Tok) :
+    (toks ≠ [] → ∀ c ∈ Chunks.iterSentences toks, c ≠ []) ∧
+    (Chunks.iterSentences toks).length =
+      toks.countP (fun t => isSentenceTerminator t.kind) + (if endsInTerm isSentenceTerminator toks then 0 else 1) ∧
+    (Chunks.iterSentences toks).length ≤ max 1 toks.length ∧
+    (∀ c ∈ Chunks.iterSentences toks, c.dropLast.any (fun t => isSentenceTerminator t.kind) = false) ∧
+    (∀ pre c post, Chunks.iterSentences toks = pre ++ c :: post → post ≠ [] →
+      ∃ t, c.getLast? = some t ∧ isSentenceTerminator t.kind = true) :=
+  ⟨split_nonempty _ toks, split_count _ toks, split_count_le _ toks, (split_terminators _ toks).1, (split_terminators _ toks).2⟩
+
+theorem iterParagraphs_tok_pieces (toks : List Tok) :
+    (toks ≠ [] → ∀ c ∈ Chunks.iterParagraphs toks, c ≠ []) ∧
+    (Chunks.iterParagraphs toks).length =
+      toks.countP (fun t => t.kind.isParagraphBreak) + (if endsInTerm Kind.isParagraphBreak toks then 0 else 1) ∧
+    (Chunks.iterParagraphs toks).length ≤ max 1 toks.length ∧
+    (∀ c ∈ Chunks.iterParagraphs toks, c.dropLast.any (fun t => t.kind.isParagraphBreak) = false) ∧
+    (∀ pre c post, Chunks.iterParagraphs toks = pre ++ c :: post → post ≠ [] →
+      ∃ t, c.getLast? = some t ∧ t.kind.isParagraphBreak = true) :=
+  ⟨split_nonempty _ toks, split_count _ toks, split_count_le _ toks, (split_terminators _ toks).1, (split_terminators _ toks).2⟩
+
+/-- the count on concrete vectors: `a, b.` — two terminators, the last token is one: 2 pieces; `a, b` — one terminator and a
+tail: 2 pieces; `, .` 2 pieces; no token: 1 piece -/
+example : (Chunks.iterChunks [⟨⟨0, 1⟩, .word⟩, ⟨⟨1, 2⟩, .punct .Comma⟩, ⟨⟨2, 3⟩, .space 1⟩, ⟨⟨3, 4⟩, .word⟩, ⟨⟨4, 5⟩, .punct .Period⟩]).length = 2 ∧
+    (Chunks.iterChunks [⟨⟨0, 1⟩, .word⟩, ⟨⟨1, 2⟩, .punct .Comma⟩, ⟨⟨2, 3⟩, .space 1⟩, ⟨⟨3, 4⟩, .word⟩]).length = 2 ∧
+    (Chunks.iterChunks [⟨⟨0, 1⟩, .punct .Comma⟩, ⟨⟨1, 2⟩, .punct .Period⟩]).length = 2 ∧
+    (Chunks.iterChunks []).length = 1 ∧
+    endsInTerm isChunkTerminator [⟨⟨0, 1⟩, .word⟩, ⟨⟨1, 2⟩, .punct .Comma⟩] = true ∧
+    endsInTerm isChunkTerminator [⟨⟨0, 1⟩, .punct .Comma⟩, ⟨⟨1, 2⟩, .word⟩] = false := by decide
+
+/-! ## the two chunk iterators are one function -/
+
+/-- **`Chunks.split` (tokens; what the rule models iterate) and `Pat.iterSplit` (kind codes; what `lintDoc` iterates)
+cut at the same places**, for any coding of the tokens under which the two terminator tests agree, on EVERY token vector:
+there is no input on which the two models of `iter_chunks` differ (empty vector: one empty piece in both; a trailing
+terminator: no empty last piece in either). -/
+theorem split_iterSplit (term : Kind → Bool) (term' : Nat → Bool) (code : Tok → Nat)
+    (hc : ∀ t, term t.kind = term' (code t)) (toks : List Tok) :
+    (Chunks.split term toks).map (List.map code) = Pat.iterSplit term' (toks.map code) :=
+  split_code term term' code hc toks
+
+/-- with the kind codes of `Model/Pattern.lean`'s table (`Rules.kindCode`) -/
+theorem iterChunks_tok_code (toks : List Tok) :
+    (Chunks.iterChunks toks).map (List.map tokCode) = Pat.iterChunks (toks.map tokCode) :=
+  split_code _ _ tokCode (fun t => isChunkTerminator_code t.kind) toks
+theorem iterSentences_tok_code (toks : List Tok) :
+    (Chunks.iterSentences toks).map (List.map tokCode) = Pat.iterSentences (toks.map tokCode) :=
+  split_code _ _ tokCode (fun t => isSentenceTerminator_code t.kind) toks
+theorem iterParagraphs_tok_code (toks : List Tok) :
+    (Chunks.iterParagraphs toks).map (List.map tokCode) = Pat.iterParagraphs (toks.map tokCode) :=
+  split_code _ _ tokCode (fun t => isParagraphBreak_code t.kind) toks
+
+/-- non-vacuity: `a, "b!` + paragraph break + `c` — codes `0 3 1 8 0 7 5 0`; both sides, evaluated -/
+example :
+    (Chunks.iterChunks [⟨⟨0, 1⟩, .word⟩, ⟨⟨1, 2⟩, .punct .Comma⟩, ⟨⟨2, 3⟩, .space 1⟩, ⟨⟨3, 4⟩, .quote none⟩, ⟨⟨4, 5⟩, .word⟩,
+      ⟨⟨5, 6⟩, .punct .Bang⟩, ⟨⟨6, 8⟩, .paragraphBreak⟩, ⟨⟨8, 9⟩, .word⟩]).map (List.map tokCode) =
+      [[0, 3], [1, 8], [0, 7], [5], [0]] ∧
+    Pat.iterChunks [0, 3, 1, 8, 0, 7, 5, 0] = [[0, 3], [1, 8], [0, 7], [5], [0]] ∧
+    (Chunks.iterSentences [⟨⟨0, 1⟩, .word⟩, ⟨⟨1, 2⟩, .punct .Comma⟩, ⟨⟨2, 3⟩, .space 1⟩, ⟨⟨3, 4⟩, .quote none⟩, ⟨⟨4, 5⟩, .word⟩,
+      ⟨⟨5, 6⟩, .punct .Bang⟩, ⟨⟨6, 8⟩, .paragraphBreak⟩, ⟨⟨8, 9⟩, .word⟩]).map (List.map tokCode) =
+      Pat.iterSentences [0, 3, 1, 8, 0, 7, 5, 0] ∧
+    Pat.iterParagraphs [0, 3, 1, 8, 0, 7, 5, 0] = [[0, 3, 1, 8, 0, 7, 5], [0]] := by decide
+
+/-! ## the two models of `run_on_chunk` -/
+
+/-- **`Rules.runOnChunkGo` (tokens, `skip` counter, structural recursion; carries `match_to_lint`) does what
+`Pat.runOnChunk` (kind codes, cursor and fuel; lists `(start, len)`) lists**: when the matcher and the kind-code pattern
+answer the same on the suffixes of the chunk (`AgreeOn`) and the kind-code run returns the matches `ms`, the token-level
+run is `match_to_lint` on `&chunk[s..s + n]` for each `(s, n)` of `ms`, in order, lints concatenated, the first panic of a
+`match_to_lint` ending it (`Rules.lintMatches`). -/
+theorem runOnChunk_link_ok (m : Matcher) (p : Pat) (code : Tok → Nat) (src : List Char) (chunk : List Tok)
+    (hag : AgreeOn m p code src chunk) (f : List Char → List Tok → Except Panic (List RuleLint))
+    (ms : List (Nat × Nat)) (h : Pat.runOnChunk p (chunk.map code) = .ok ms) :
+    runOnChunkGo m f src 0 chunk = lintMatches f src chunk ms := by
+  unfold Pat.runOnChunk at h
+  rw [List.length_map] at h
+  exact (runOnChunkGo_sim m p code src chunk hag f chunk 0 0 chunk.length rfl (by omega)).1 ms h
+
+/-- … and when the kind-code run panics, so does the token-level one (with the same panic if `match_to_lint` is total;
+otherwise possibly with an earlier panic of `match_to_lint`, which the kind-code model does not have) -/
+theorem runOnChunk_link_error (m : Matcher) (p : Pat) (code : Tok → Nat) (src : List Char) (chunk : List Tok)
+    (hag : AgreeOn m p code src chunk) (f : List Char → List Tok → Except Panic (List RuleLint))
+    (e : Panic) (h : Pat.runOnChunk p (chunk.map code) = .error e) :
+    ∃ e', runOnChunkGo m f src 0 chunk = .error e' ∧ ((∀ l, ∃ r, f src l = .ok r) → e' = e) := by
+  unfold Pat.runOnChunk at h
+  rw [List.length_map] at h
+  exact (runOnChunkGo_sim m p code src chunk hag f chunk 0 0 chunk.length rfl (by omega)).2 e h
+
+/-- both cases in one equation, for a total `match_to_lint` -/
+theorem runOnChunk_link (m : Matcher) (p : Pat) (code : Tok → Nat) (src : List Char) (chunk : List Tok)
+    (hag : AgreeOn m p code src chunk) (f : List Char → List Tok → Except Panic (List RuleLint))
+    (hf : ∀ l, ∃ r, f src l = .ok r) :
+    runOnChunkGo m f src 0 chunk =
+      match Pat.runOnChunk p (chunk.map code) with
+      | .ok ms => lintMatches f src chunk ms
+      | .error e => .error e := by
+  cases h : Pat.runOnChunk p (chunk.map code) with
+  | ok ms => exact runOnChunk_link_ok m p code src chunk hag f ms h
+  | error e =>
+    obtain ⟨e', he', h'⟩ := runOnChunk_link_error m p code src chunk hag f e h
+    rw [he', h' hf]
+
+/-- hence `runOnChunk_safe` of the kind-code model carries over: a matcher that agrees with a contract-keeping kind-code
+pattern on the chunk never makes `run_on_chunk` panic; the token-level run is `match_to_lint` over non-empty, in-chunk,
+increasing and pairwise disjoint slices -/
+theorem runOnChunk_link_safe (m : Matcher) (p : Pat) (hp : Pat.Contract p) (code : Tok → Nat) (src : List Char) (chunk : List Tok)
+    (hag : AgreeOn m p code src chunk) (f : List Char → List Tok → Except Panic (List RuleLint)) :
+    ∃ ms, runOnChunkGo m f src 0 chunk = lintMatches f src chunk ms ∧
+      (∀ x ∈ ms, 1 ≤ x.2 ∧ x.1 + x.2 ≤ chunk.length) ∧
+      ms.Pairwise (fun a b => a.1 + a.2 ≤ b.1) := by
+  obtain ⟨ms, hms, hb, hd⟩ := runOnChunk_safe p hp (chunk.map code)
+  refine ⟨ms, runOnChunk_link_ok m p code src chunk hag f ms hms, ?_, hd⟩
+  intro x hx
+  have := hb x hx
+  rw [List.length_map] at this
+  exact this
+
+/-- `word whitespace word` in the two models: the token-level combinators of `Model/Condense.lean` and the kind-code tree of
+`Model/Pattern.lean` agree on every token slice, through `tokCode` -/
+theorem wordWsWord_agree (src : List Char) :
+    Agree (seqPat [kindAtom Kind.isWord, whitespaceAtom, kindAtom Kind.isWord])
+      (.seq (.ofList [.leaf 0, .whitespace, .leaf 0])) tokCode src :=
+  seqPat_agree tokCode src [(kindAtom Kind.isWord, .leaf 0), (whitespaceAtom, .whitespace), (kindAtom Kind.isWord, .leaf 0)] (by
+    intro x hx
+    simp only [List.mem_cons, List.mem_nil_iff, or_false] at hx
+    rcases hx with rfl | rfl | rfl
+    · exact ⟨kindAtom_isWord_agree src, kindAtom_contract _ src⟩
+    · exact ⟨whitespaceAtom_agree src, whitespaceAtom_contract src⟩
+    · exact ⟨kindAtom_isWord_agree src, kindAtom_contract _ src⟩)
+
+/-- a `match_to_lint` that records what it was handed: first start, last end, number of tokens -/
+def recordMatch : List Char → List Tok → Except Panic (List RuleLint) := fun _ l =>
+  .ok [⟨⟨(l.head?.map (·.span.start)).getD 0, (l.getLast?.map (·.span.stop)).getD 0⟩, [], 0, l.length⟩]
+
+/-- **non-vacuity of `runOnChunk_link` / `runOnChunk_link_ok` / `runOnChunk_link_safe`**: `word ws word` over the chunk
+`a b c d.` (8 tokens) — the hypotheses hold (`wordWsWord_agree`, `recordMatch` is total, the tree keeps the contract), the
+kind-code run lists `(0, 3), (4, 3)`, and the token-level run hands `match_to_lint` tokens 0..3 and 4..7 -/
+example :
+    let chunk : List Tok := [⟨⟨0, 1⟩, .word⟩, ⟨⟨1, 2⟩, .space 1⟩, ⟨⟨2, 3⟩, .word⟩, ⟨⟨3, 4⟩, .space 1⟩, ⟨⟨4, 5⟩, .word⟩,
+      ⟨⟨5, 6⟩, .space 1⟩, ⟨⟨6, 7⟩, .word⟩, ⟨⟨7, 8⟩, .punct .Period⟩]
+    let m : Matcher := seqPat [kindAtom Kind.isWord, whitespaceAtom, kindAtom Kind.isWord]
+    let p : Pat := .seq (.ofList [.leaf 0, .whitespace, .leaf 0])
+    AgreeOn m p tokCode [] chunk ∧ Pat.Contract p ∧ (∀ l, ∃ r, recordMatch [] l = .ok r) ∧
+    Pat.runOnChunk p (chunk.map tokCode) = .ok [(0, 3), (4, 3)] ∧
+    runOnChunkGo m recordMatch [] 0 chunk = .ok [⟨⟨0, 3⟩, [], 0, 3⟩, ⟨⟨4, 7⟩, [], 0, 3⟩] ∧
+    lintMatches recordMatch [] chunk [(0, 3), (4, 3)] = .ok [⟨⟨0, 3⟩, [], 0, 3⟩, ⟨⟨4, 7⟩, [], 0, 3⟩] := by
+  refine ⟨(wordWsWord_agree []).agreeOn _, by simp [Pat.Contract, Pat.ContractL, PatList.ofList], fun l => ⟨_, rfl⟩,
+    by decide, by decide, by decide⟩
+
+/-- `AgreeOn` is a finite check on a concrete chunk: here by evaluation, for `ModalOf`-like atoms that read the text
+(`anyCapAtom`) there is no kind-code counterpart — see the note below -/
+example : AgreeOn (kindAtom Kind.isWord) (.leaf 0) tokCode []
+    [⟨⟨0, 1⟩, .word⟩, ⟨⟨1, 2⟩, .punct .Comma⟩, ⟨⟨2, 3⟩, .word⟩] := by
+  unfold AgreeOn
+  decide
+
+/-- the panic case (`runOnChunk_link_error`): a matcher and a leaf that both answer 2 on the last token — the kind-code run
+and the token-level run both panic in `&chunk[c..c + n]` -/
+example :
+    let chunk : List Tok := [⟨⟨0, 1⟩, .punct .Comma⟩, ⟨⟨1, 2⟩, .word⟩]
+    let m : Matcher := fun _ toks => .ok (if (toks.head?.map (·.kind.isWord)).getD false then 2 else 0)
+    let p : Pat := .fn (fun ks => if ks.head? = some 0 then 2 else 0)
+    AgreeOn m p tokCode [] chunk ∧
+    Pat.runOnChunk p (chunk.map tokCode) = .error .sliceOOB ∧
+    runOnChunkGo m recordMatch [] 0 chunk = .error .sliceOOB := by
+  refine ⟨?_, by decide, by decide⟩
+  unfold AgreeOn
+  decide
+
+/-- **the two models of `SequencePattern` differ outside the contract**: a last child that answers more than it was given
+makes `Condense.seqGo` panic at once (`&tokens[tok_cursor..]`), while `Pat.seqLoop` — like the Rust loop, which slices only at
+the START of the next iteration — returns the over-long length (and `run_on_chunk` panics one step later, in
+`&chunk[c..c + n]`). So `seqPat_agree` needs `MContract`; with it (every shipped atom keeps it: `MOK`) the two agree. -/
+example : seqPat [fun _ _ => .ok 1] [] [] = .error .sliceOOB ∧
+    Pat.matchLen (.seq (.ofList [.fn (fun _ => 1)])) [] = .ok 1 ∧
+    Pat.runOnChunk (.seq (.ofList [.fn (fun _ => 2)])) [0] = .error .sliceOOB ∧
+    runOnChunkGo (seqPat [fun _ _ => .ok 2]) recordMatch [] 0 [⟨⟨0, 1⟩, .word⟩] = .error .sliceOOB := by decide
+
+/-- **why the link is conditional (`AgreeOn`) and cannot be stated for the shipped rules outright**: their matchers read the
+TEXT under a token (`anyCapAtom`, `wordSetAtom`, `withinEditAtom`, …), which the kind-code model abstracts away — one and the
+same code list gets different answers under different source texts, so NO kind-code pattern (not even an arbitrary `fn`
+leaf) agrees with such a matcher for every text. The kind-code model covers the combinators and the loops; the text-reading
+leaves are covered on the token side (`runOnChunk_safe_real`, `MOK`). -/
+theorem textAtom_no_code_counterpart : ¬ ∃ p : Pat, ∀ src, Agree (anyCapAtom ['o', 'f']) p tokCode src := by
+  intro ⟨p, h⟩
+  have h1 := h ['o', 'f'] [⟨⟨0, 2⟩, .word⟩]
+  have h2 := h ['o', 'r'] [⟨⟨0, 2⟩, .word⟩]
+  exact absurd (h1.trans h2.symm) (by decide)
+
+end Harper.C01
+
+/-! ## never hangs — UNCONDITIONALLY (w26): every `PatternLinter` and the eleven hand-written rules
+
+`matches_never_hangs_real` / `runOnChunk_never_hangs_real` (`Props/C01Leaves.lean`) reduce "a `PatternLinter` never hangs" to
+"its `match_to_lint` never reports a hang". Here that is discharged: for the `Spec` interpreter (every step, selection,
+suggestion and message argument), and for each hand-written rule of `Model/Rules.lean`. No hypothesis on the environment,
+the source or the tokens (spans may lie outside the text, be inverted, overlap, be out of order). -/
+namespace Harper.C01
+open Harper Harper.Chunks Harper.Rules Harper.Leaves Harper.PatternRules
+open Harper.C12 (env0)
+
+/-- `match_to_lint` as data never reports a hang unless one of the rule's OWN computations (`Step.custom`, an arbitrary function
+in the model) does: `Spec.NoFuel` asks exactly that of the custom steps and nothing of anything else -/
+theorem matchToLint_never_hangs (env : Env) (s : Spec) (hs : s.NoFuel) (src : List Char) (matched : List Tok) :
+    s.run env src matched ≠ .error .outOfFuel := Spec.run_nf env s hs src matched
+
+/-- **every `PatternLinter` — ANY pattern tree, ANY spec whose own computations do not hang — never hangs**: `run_on_chunk` on a
+chunk (`piece`) and the whole linter over `iter_chunks` (`rule`), on any source and any tokens -/
+theorem patternRule_never_hangs (env : Env) (r : PRule) (hs : r.spec.NoFuel) (src : List Char) (toks : List Tok) :
+    r.rule env src toks ≠ .error .outOfFuel ∧ r.piece env src toks ≠ .error .outOfFuel :=
+  ⟨PRule.rule_nf env r hs src toks, PRule.piece_nf env r hs src toks⟩
+
+/-- a spec without a custom step (23 of the 28 shipped ones) needs no hypothesis at all -/
+theorem patternRule_never_hangs_noCustom (env : Env) (r : PRule)
+    (hb : r.spec.before.all (fun s => !Step.isCustom s) = true) (ha : r.spec.after.all (fun s => !Step.isCustom s) = true)
+    (src : List Char) (toks : List Tok) : r.rule env src toks ≠ .error .outOfFuel :=
+  PRule.rule_nf env r ⟨noFuel_of_noCustom _ hb, noFuel_of_noCustom _ ha⟩ src toks
+
+/-- **the hypothesis is needed** (the planned "for ANY spec" is FALSE of the model): `Step.custom` takes an arbitrary function,
+and one that answers `outOfFuel` makes the rule answer `outOfFuel` — on one word matched by `AnyPattern` -/
+def specHangs : Spec where
+  before := [.custom 0 fun _ _ _ => .error .outOfFuel]
+  span := .whole
+  suggs := fun _ => []
+  msg := 0
+
+example : (PRule.rule env0 ⟨.leaf .any, specHangs⟩) ['a'] [⟨⟨0, 1⟩, .word⟩] = .error .outOfFuel := by decide
+
+/-- non-vacuity of `patternRule_never_hangs` / `matchToLint_never_hangs`: `Spec.NoFuel` holds of a spec WITH a custom step
+(PiqueInterest's), and of one without (`patternRule_never_hangs_noCustom`: Dashes) -/
+example : specPiqueInterest.NoFuel ∧ specDashes.NoFuel :=
+  ⟨⟨noFuel_single _ _ piqueCorrect_nf, noFuel_of_noCustom _ rfl⟩, noFuel_of_noCustom _ rfl, noFuel_of_noCustom _ rfl⟩
+example : PRule.rule env0 ⟨patDashes, specDashes⟩ ['-', '-'] [⟨⟨0, 1⟩, .punct .Hyphen⟩, ⟨⟨1, 2⟩, .punct .Hyphen⟩] ≠ .error .outOfFuel :=
+  patternRule_never_hangs_noCustom env0 ⟨patDashes, specDashes⟩ rfl rfl _ _
+
+/-- the five computations of the shipped rules never report a hang -/
+theorem customSteps_never_hang : CustomNF backGuard ∧ CustomNF piqueCorrect ∧ CustomNF pronounGuard ∧
+    CustomNF initialismCorrection ∧ CustomNF timeExpansion :=
+  ⟨backGuard_nf, piqueCorrect_nf, pronounGuard_nf, initialismCorrection_nf, timeExpansion_nf⟩
+
+theorem shippedSpecs_noFuel : ∀ x ∈ allPatternRules, x.2.spec.NoFuel := allPatternRules_noFuel
+
+/-- **each of the 28 shipped `PatternLinter`s never hangs**, on any document whatsoever -/
+theorem shippedRule_never_hangs (env : Env) (name : String) (r : PRule) (hn : patternRuleByName name = some r) (src : List Char)
+    (toks : List Tok) : r.rule env src toks ≠ .error .outOfFuel ∧ r.piece env src toks ≠ .error .outOfFuel :=
+  patternRule_never_hangs env r (noFuel_of_name name r hn) src toks
+
+/-- non-vacuity of `shippedRule_never_hangs`: the name resolves; on garbage tokens — a word whose span 7..9 lies outside the
+two-character text, an inverted span — the rules answer with the slice / underflow panic or with no lint, not with a hang -/
+example : (patternRuleByName "MultipleSequentialPronouns").isSome = true ∧
+    (PRule.rule env0 ⟨patMultipleSequentialPronouns, specMultipleSequentialPronouns⟩) ['m', 'e'] [⟨⟨7, 9⟩, .word⟩] = .error .sliceOOB ∧
+    (PRule.rule env0 ⟨patWhereas, specWhereas⟩) ['m', 'e'] [⟨⟨2, 1⟩, .word⟩] = .error .underflow ∧
+    (PRule.rule env0 ⟨patDashes, specDashes⟩) ['m', 'e'] [⟨⟨7, 9⟩, .punct .Hyphen⟩, ⟨⟨1, 0⟩, .punct .Hyphen⟩] =
+      .ok [⟨⟨0, 9⟩, [.replaceWith ['–']], 21, 2⟩] := by decide
+
+/-! ### the eleven hand-written rules of `Model/Rules.lean` -/
+
+/-- **LongSentences, CurrencyPlacement, Spaces, RepeatedWords, EllipsisLength, NumberSuffixCapitalization, CorrectNumberSuffix,
+UnclosedQuotes, ModalOf, AnA, SentenceCapitalization never hang** — every rule `ruleByName` dispatches on, for every environment,
+source and token vector. (All are `for` loops over tokens / windows / pieces; ModalOf is `run_on_chunk` around a pattern
+without `RepeatingPattern`.) -/
+theorem handWrittenRules_never_hang (env : Env) (src : List Char) (toks : List Tok) :
+    ∀ r ∈ [ruleLongSentences, ruleCurrencyPlacement, ruleSpaces, ruleRepeatedWords, ruleEllipsisLength,
+      ruleNumberSuffixCapitalization, ruleCorrectNumberSuffix, ruleUnclosedQuotes, ruleModalOf, ruleAnA,
+      ruleSentenceCapitalization], r env src toks ≠ .error .outOfFuel := by
+  intro r hr
+  simp only [List.mem_cons, List.mem_nil_iff, or_false] at hr
+  rcases hr with rfl | rfl | rfl | rfl | rfl | rfl | rfl | rfl | rfl | rfl | rfl
+  · exact ruleLongSentences_nf env src toks
+  · exact ruleCurrencyPlacement_nf env src toks
+  · exact ruleSpaces_nf env src toks
+  · exact ruleRepeatedWords_nf env src toks
+  · exact ruleEllipsisLength_nf env src toks
+  · exact ruleNumberSuffixCapitalization_nf env src toks
+  · exact ruleCorrectNumberSuffix_nf env src toks
+  · exact ruleUnclosedQuotes_nf env src toks
+  · exact ruleModalOf_nf env src toks
+  · exact ruleAnA_nf env src toks
+  · exact ruleSentenceCapitalization_nf env src toks
+
+/-- … stated on the dispatch table: whatever `ruleByName` returns never hangs -/
+theorem ruleByName_never_hangs (name : String) (r : Env → PieceRule) (hn : ruleByName name = some r) (env : Env) (src : List Char)
+    (toks : List Tok) : r env src toks ≠ .error .outOfFuel := by
+  unfold ruleByName at hn
+  split at hn <;> cases hn
+  · exact ruleLongSentences_nf env src toks
+  · exact ruleCurrencyPlacement_nf env src toks
+  · exact ruleSpaces_nf env src toks
+  · exact ruleRepeatedWords_nf env src toks
+  · exact ruleEllipsisLength_nf env src toks
+  · exact ruleNumberSuffixCapitalization_nf env src toks
+  · exact ruleCorrectNumberSuffix_nf env src toks
+  · exact ruleUnclosedQuotes_nf env src toks
+  · exact ruleModalOf_nf env src toks
+  · exact ruleAnA_nf env src toks
+  · exact ruleSentenceCapitalization_nf env src toks
+
+/-- on garbage tokens: RepeatedWords and AnA read the text under an out-of-text word (slice panic), EllipsisLength under an
+inverted span (underflow); LongSentences, Spaces, UnclosedQuotes do not read the text at all — no hang anywhere -/
+example : ruleRepeatedWords env0 ['a'] [⟨⟨7, 9⟩, .word⟩, ⟨⟨0, 1⟩, .word⟩] = .error .sliceOOB ∧
+    ruleAnA env0 ['a'] [⟨⟨0, 1⟩, .word⟩, ⟨⟨7, 9⟩, .word⟩] = .error .sliceOOB ∧
+    ruleEllipsisLength env0 ['a'] [⟨⟨1, 0⟩, .punct .Ellipsis⟩] = .error .underflow ∧
+    ruleSpaces env0 ['a'] [⟨⟨7, 9⟩, .space 2⟩] = .ok [⟨⟨7, 9⟩, [.replaceWith [' ']], 3, 2⟩] ∧
+    ruleUnclosedQuotes env0 ['a'] [⟨⟨9, 7⟩, .quote none⟩] = .ok [⟨⟨9, 7⟩, [], 8, 0⟩] := by decide
 
 end Harper.C01
